@@ -300,6 +300,15 @@ func (n *Node) BuildTx(ts *TxSpec, height uint32) (interfaces.Transaction, error
 			}
 		}
 		pl = x
+	case "ca": // CRCAppropriation: inputs, two outputs (expenses, assets), no attributes, no programs
+		txType = ctypes.CRCAppropriation
+		pl = &payload.CRCAppropriation{}
+		attrs = nil
+		if ts.Nonce != "-" { // no attributes: the nonce of the specification is the lock time
+			if v, err := strconv.ParseUint(ts.Nonce, 16, 32); err == nil {
+				lock = uint32(v)
+			}
+		}
 	case "ot":
 		txType = ctypes.TransferAsset
 		pl = &payload.TransferAsset{}
